@@ -649,7 +649,8 @@ class PolytopeCheck(Check):
             r = rng.random()
             if r < 0.35 and levels[i] < max_level:
                 levels[i] += 1
-                ops.append({"op": "divide", "inst": i})
+                # what the caller looks at after the subdivision is part of the history: getters may fill caches
+                ops.append({"op": "divide", "inst": i, "observe": rng.choice(["all", "all", "nodes", "none", "none"])})
             elif r < 0.6:
                 ops.append({"op": "nodes", "inst": i, "frac": rng.choice([None, None, 0.0, 0.3, 0.7, 1.0]),
                             "projection": rng.random() < 0.5})
@@ -665,7 +666,8 @@ class PolytopeCheck(Check):
             i = rng.randrange(n_inst)
             while levels[i] < max_level:
                 levels[i] += 1
-                ops.insert(rng.randrange(len(ops) + 1), {"op": "divide", "inst": i})
+                ops.insert(rng.randrange(len(ops) + 1), {"op": "divide", "inst": i,
+                                                         "observe": rng.choice(["all", "nodes", "none"])})
         return {"kind": "polytope", "type": kind, "n_inst": n_inst, "ops": ops}
 
     _ideal_cache: dict = {}
@@ -678,11 +680,11 @@ class PolytopeCheck(Check):
             self._ideal_cache[key] = (pts, cKDTree(pts))
         return self._ideal_cache[key]
 
-    def _check_instance(self, kind, poly, level, index_log, what):
+    def _check_instance(self, kind, poly, level, index_log, what, with_projection=True):
         from scipy.spatial import cKDTree
         with lib_call(what + ": get_nodes()"):
             nodes = np.array(poly.get_nodes(), copy=True)
-            proj = np.array(poly.get_nodes(projection=True), copy=True)
+            proj = np.array(poly.get_nodes(projection=True), copy=True) if with_projection else None
         n = len(nodes)
         exp_n = EXPECTED_COUNT[kind](level)
         ideal, tree = self._ideal(kind, level)
@@ -697,7 +699,7 @@ class PolytopeCheck(Check):
             raise Violation("lattice-duplicate", f"{what}: two nodes map to the same lattice point")
         # projection
         nrm = np.linalg.norm(nodes, axis=1)
-        if np.abs(proj - nodes / nrm[:, None]).max() > 1e-12:
+        if proj is not None and (proj.shape != nodes.shape or np.abs(proj - nodes / nrm[:, None]).max() > 1e-12):
             raise Violation("projection", f"{what}: projection is not node/|node|")
         # negation closure
         d2, _ = cKDTree(nodes).query(-nodes)
@@ -763,8 +765,15 @@ class PolytopeCheck(Check):
                     levels[i] += 1
                     divides += 1
                     probes[f"{kind}_level_{levels[i]}"] = probes.get(f"{kind}_level_{levels[i]}", 0) + 1
-                    nodes, _ = self._check_instance(kind, poly, levels[i], logs[i], what + f" after divide -> level {levels[i]}")
-                    log.add(f"poly{i}", "divide", levels[i], digest_any(nodes))
+                    obs = op.get("observe", "all")
+                    if obs == "none":
+                        probes["divide_without_observation"] = probes.get("divide_without_observation", 0) + 1
+                        log.add(f"poly{i}", "divide", levels[i])
+                    else:
+                        nodes, _ = self._check_instance(kind, poly, levels[i], logs[i],
+                                                        what + f" after divide -> level {levels[i]}",
+                                                        with_projection=(obs == "all"))
+                        log.add(f"poly{i}", "divide", [levels[i], obs], digest_any(nodes))
                 elif op["op"] == "nodes":
                     nodes, proj = self._check_instance(kind, poly, levels[i], logs[i], what)
                     n = len(nodes)
@@ -811,7 +820,14 @@ class PolytopeCheck(Check):
                         raise Violation("half-prefix", f"{what}: get_half_of_hypercube(N={N}) is not the first {N} of "
                                                        f"the full half selection")
                     log.add(f"poly{i}", "half", [N, op["projection"]], digest_any(part))
-                sig.append((op["op"], i, levels[i]))
+                sig.append((op["op"], i, levels[i], op.get("observe")))
+            for i, poly in enumerate(insts):
+                self._check_instance(kind, poly, levels[i], logs[i], f"final state of {kind}#{i} (level {levels[i]})")
+                if kind == "cube4D":
+                    with lib_call(f"final get_half_of_hypercube of {kind}#{i}"):
+                        nodes_f = np.array(poly.get_nodes(), copy=True)
+                        half_f = np.asarray(poly.get_half_of_hypercube(projection=False))
+                    self._check_half(nodes_f, half_f, f"final state of {kind}#{i}")
         nontrivial = divides >= 1 and (sum(faults.values()) >= 1 or len(touched) >= 2)
         return {"events": log.n, "fingerprint": log.digest(), "faults": faults, "probes": probes,
                 "sig": repr(sig), "nontrivial": nontrivial, "inter": repr(sig)}
